@@ -141,6 +141,14 @@ func C06(c *Ctx) {
 	for _, d := range dels {
 		pidOK := HasOrigin(c.Origins(Arg(d, 1)), func(o Origin) bool { return o.Kind == "param" && c.isUserType(o.V.Type()) })
 		r.Check(pidOK, "C06.update-revoke", un, "DelRememberTokens.pid", posf(c, d), "PID of the user whose password changed", "PID passed is not that of the user argument")
+		// a revocation that failed is not a success: the caller must learn that the old tokens are still there
+		k, _ := c.errHandling(d)
+		okE := k == "returned"
+		whyE := "error is " + k
+		if k == "tested" {
+			okE, whyE = c.errPropagated(d)
+		}
+		r.Check(okE, "C06.update-revoke", un, "DelRememberTokens.err", posf(c, d), "handed back to the caller", "a failed revocation of the remember tokens is not reported ("+whyE+"): UpdatePassword answers success while every old token still authenticates")
 	}
 
 	// (4) token spent on the same path
